@@ -228,3 +228,12 @@ def atomic_cmp(F, node, field, consts=None):
                 order = "acquire" if "acquire" in an["fn"] else "relaxed"
                 return (order, nd["op"], bn["cv"])
     return None
+
+
+def macros_in(F, node):
+    """Names of the macros whose expansion produced any part of expression `node`."""
+    out = set()
+    for d in F.descendants(node):
+        for m in F.nodes[d].get("m", ()):
+            out.add(m)
+    return out
